@@ -316,7 +316,7 @@ func genC11(t *rapid.T) c11Case {
 func init() { register("C11", checkC11) }
 
 func TestC11(t *testing.T) {
-	runProp(t, "C11", checkC11, nil, part[c11Case]{"contents", scale(600, 6000), genC11})
+	runProp(t, "C11", checkC11, nil, part[c11Case]{"contents", scale(1500, 6000), genC11})
 }
 
 // FuzzC11 runs the same oracle on raw content bytes (thorough tier).
